@@ -294,10 +294,12 @@ fn split_comment_token(token: Token) -> Vec<Token> {
         let n_lines = prev_text.matches('\n').count() as u32;
         line += n_lines;
 
+        // Columns count characters (as parol does for ordinary tokens), not bytes.
         column = if n_lines == 0 {
-            column + prev_text.len() as u32
+            column + prev_text.chars().count() as u32
         } else {
-            (prev_text.len() - prev_text.rfind('\n').unwrap_or(0)) as u32
+            let tail = &prev_text[prev_text.rfind('\n').map(|x| x + 1).unwrap_or(0)..];
+            tail.chars().count() as u32 + 1
         };
 
         prev_pos = pos;
